@@ -33,7 +33,7 @@ GroupProgramsC18(g) ==
     [] g[1] = "law" -> { <<"Bin", "===", C("toFloat", <<C("toString", <<Lt(x)>>)>>), Lt(x)>> : x \in Grid }
                        \cup { <<"Bin", "===", C("toFloat", <<C("toString", <<Id("f")>>)>>), Id("f")>> }
     [] g[1] = "conv" -> { C(f, <<S(t)>>) : f \in {"toInt", "toFloat", "finite"}, t \in Texts }
-                        \cup { C(f, <<v>>) : f \in {"toInt", "toFloat", "finite", "toString"}, v \in {Id("nan"), Id("inf"), KwL("null"), KwL("true"), Id("m"), Id("i"), Id("f")} }
+                        \cup { C(f, <<v>>) : f \in {"toInt", "toFloat", "finite", "toString"}, v \in {Id("nan"), Id("inf"), Id("ninf"), <<"Pre", "-", Id("inf")>>, KwL("null"), KwL("true"), Id("m"), Id("i"), Id("f")} }
     [] g[1] = "maxmin" -> { C(f, <<Lt(g[2])>>) : f \in {"max", "min"} }
                           \cup { C(f, <<Lt(g[2]), Lt(b)>>) : f \in {"max", "min"}, b \in Small }
                           \cup { C(f, <<Lt(g[2]), Lt(b), Lt(c)>>) : f \in {"max", "min"}, b \in Small, c \in Small }
